@@ -39,3 +39,7 @@ CONTRACTS += [PostprocessFieldReportsEveryFailingRow]
 from contracts.C02_reshape import ReshapeFieldFailureCases  # drop_invalid_rows removes the rows the reshaped failure cases list (by label)
 
 CONTRACTS += [ReshapeFieldFailureCases]
+
+from contracts.C08_container_twins import PolarsRegexComponentSelection  # a regex column that is not validated collects no row mask: nothing is dropped
+
+CONTRACTS += [PolarsRegexComponentSelection]
